@@ -302,7 +302,12 @@ pub fn link_cores(cores: Vec<CoreUnit>) -> Result<LinkOutput, CompilationError> 
         ));
     }
 
-    for (pkg, unit) in by_name.iter() {
+    // Check the packages in name order, so that the package a refusal names does not depend on
+    // the iteration order of the map.
+    let mut names: Vec<&String> = by_name.keys().collect();
+    names.sort();
+    for pkg in names {
+        let unit = &by_name[pkg];
         for (dep, expected_hash) in unit.deps.iter() {
             let Some(dep_unit) = by_name.get(dep) else {
                 return Err(compile_error(format!(
